@@ -241,7 +241,7 @@ func composeCfgFile(n int) []byte {
 }
 
 var reANSI = regexp.MustCompile("\x1b\\[[0-9;]*m")
-var reSummary = regexp.MustCompile(`^- Stage (s\d+) (was completed|was skipped|failed|was cancelled)`)
+var reSummary = regexp.MustCompile(`^- Stage (s\d+) (.*)$`)
 var reJobTag = regexp.MustCompile(`# ([sc])(\d+)-(up|down|cb|ca|tb|ta|cmd)\s*$`)
 
 // ComposeCheck model-checks Taskctl.tla on the given configurations (thorough-only ones after a
@@ -361,15 +361,22 @@ func ComposeCheck(env *core.Env, rep *core.Report, k int, models ...string) map[
 			out[i].bad = "Schedule did not return (no sched-exit event); exit status " + fmt.Sprint(res.Exit)
 			return
 		}
-		// what the user is told: the summary on stdout and the exit status
+		// what the user is told: the exit status and the summary on stdout. The wording of the summary is
+		// not fixed by anything: a header or a phrase that is not recognised makes that part unknown
+		// ("?"), which the trace specification accepts
 		lines := make([]string, c.N)
 		for j := range lines {
 			lines[j] = "-"
 		}
-		printed := false
+		printed, parsed := "no", 0
+		if res.Exit == 0 {
+			printed = "unknown"
+		}
 		for _, ln := range strings.Split(reANSI.ReplaceAllString(res.Stdout, ""), "\n") {
 			ln = strings.TrimSpace(ln)
-			printed = printed || strings.HasPrefix(ln, "Summary:")
+			if strings.HasPrefix(ln, "Summary:") {
+				printed = "yes"
+			}
 			m := reSummary.FindStringSubmatch(ln)
 			if m == nil {
 				continue
@@ -378,11 +385,22 @@ func ComposeCheck(env *core.Env, rep *core.Report, k int, models ...string) map[
 			if j < 0 || j >= c.N {
 				continue
 			}
-			v := map[string]string{"was completed": "D", "was skipped": "S", "failed": "E", "was cancelled": "C"}[m[2]]
+			parsed++
+			v := "?"
+			for phrase, letter := range map[string]string{"was completed": "D", "was skipped": "S", "failed": "E", "was cancelled": "C"} {
+				if strings.HasPrefix(m[2], phrase) {
+					v = letter
+				}
+			}
 			if lines[j] != "-" {
 				v = "dup"
 			}
 			lines[j] = v
+		}
+		if printed == "yes" && parsed == 0 {
+			for j := range lines {
+				lines[j] = "?"
+			}
 		}
 		evs = append(evs, Event{"e": "summary", "printed": printed, "exitfail": res.Exit != 0, "lines": lines})
 		evs = append(evs, Event{"e": "end"})
